@@ -102,6 +102,13 @@ func catalog(p ScenParams) *WSpec {
 		w.Procs = []ProcSpec{src, src2, sub, sub2, j}
 		w.Edges = []Edge{fe("src", "out", "sub", "in"), fe("src2", "out", "sub2", "in"), fe("sub", "substream", "j", "x"), fe("sub2", "substream", "j", "y")}
 		return w
+	case "gjoin3": // a joined in-port AND an ordinary in-port on one task: src(k) -> sub -> j.x ; src2(1) -> j.hdr
+		j := ProcSpec{Name: "j", Kind: "joiner", JoinSep: p.Extra, JoinHdr: true}
+		src2 := ProcSpec{Name: "src2", Kind: "src", Items: srcItems("jn", 1)}
+		sub := ProcSpec{Name: "sub", Kind: "substream", Ins: []string{"in"}}
+		w.Procs = []ProcSpec{src, src2, sub, j}
+		w.Edges = []Edge{fe("src", "out", "sub", "in"), fe("sub", "substream", "j", "x"), fe("src2", "out", "j", "hdr")}
+		return w
 	case "gsplit": // src -> FileSplitter -> {Q, R}: fan-out of IPs whose audit info is not loaded yet
 		spl := ProcSpec{Name: "split", Kind: "splitter", Ins: []string{"file"}}
 		w.Procs = []ProcSpec{src, spl, simpleProc("q", kind), simpleProc("r", kind)}
@@ -120,6 +127,11 @@ func catalog(p ScenParams) *WSpec {
 		pp := ProcSpec{Name: "p", Kind: kind, Ins: []string{"in"}, Outs: []OutSpec{{Name: "o1", Pattern: "{i:in}.o1"}, {Name: "o2", Pattern: "{i:in}.o2"}}}
 		w.Procs = []ProcSpec{src, pp, simpleProc("q", kind), simpleProc("r", kind)}
 		w.Edges = []Edge{fe("src", "out", "p", "in"), fe("p", "o1", "q", "in"), fe("p", "o2", "r", "in")}
+	case "g7b": // two-output task, only o1 consumed (o2 drained by the sink): a history may hold o1 alone
+		pp := ProcSpec{Name: "p", Kind: kind, Ins: []string{"in"}, Outs: []OutSpec{{Name: "o1", Pattern: "{i:in}.o1"}, {Name: "o2", Pattern: "{i:in}.o2"}}}
+		w.Procs = []ProcSpec{src, pp, simpleProc("q", kind)}
+		w.Edges = []Edge{fe("src", "out", "p", "in"), fe("p", "o1", "q", "in")}
+		w.PartialUnits = []string{"o1"}
 	case "g8": // parameter port (fed by FromStr) + file port
 		pp := ProcSpec{Name: "p", Kind: kind, Ins: []string{"in"}, Params: []string{"a"}, Outs: []OutSpec{{Name: "out", Pattern: "{i:in}.{p:a}.p"}}}
 		vals := []string{}
